@@ -367,6 +367,38 @@ pub fn c03_programs() -> Vec<Arc<Prog>> {
         p("get+get||overwrite+compact", pre.clone(), vec![vec![Get(0), Get(1)], vec![Put(1, 3, 8), Compact(None, None)]], true),
         p("snapread+iterscan||put+flush+compact", pre, vec![vec![SnapRead(vec![0, 1]), IterScan], vec![Put(0, 3, 8), Flush, Compact(None, None)]], false),
     ]
+    .into_iter()
+    .chain(levels_programs())
+    .collect()
+}
+
+/// Readers against a cascade of size-triggered compactions and trivial moves through all levels
+/// (levels 1..=5 limited to 250 bytes by the hook; the setup leaves files down to the last level).
+pub fn levels_programs() -> Vec<Arc<Prog>> {
+    let cfg = Cfg::new(4 << 20, 300, 1, true).with_level_limit(250);
+    let p = |name: &str, threads: Vec<Vec<TOp>>| {
+        Arc::new(Prog {
+            name: name.to_string(),
+            cfg,
+            keys: kab(),
+            setup: vec![
+                Put(0, 1, 60), Flush, Put(1, 2, 60), Flush, Put(0, 3, 60), Flush, Put(1, 4, 60), Flush, Put(0, 5, 60), Flush, Put(1, 6, 60), Flush,
+                Put(0, 7, 60), Flush, Del(1), Flush,
+            ],
+            threads,
+            strict_unlink: true,
+            fs_switch: false,
+            recover_at_removals: false,
+            recover_at_meta: false,
+            fault: None,
+            fault_thread: None,
+            final_directory: true,
+        })
+    };
+    vec![
+        p("levels: snapread+iterscan||put+flush", vec![vec![SnapRead(vec![0, 1]), IterScan], vec![Put(1, 8, 60), Flush]]),
+        p("levels: get+get||put+flush+del+flush", vec![vec![Get(0), Get(1)], vec![Put(1, 8, 60), Flush, Del(0), Flush]]),
+    ]
 }
 
 pub fn c09_programs() -> Vec<Arc<Prog>> {
